@@ -2,6 +2,7 @@ package validators
 
 import (
 	"fmt"
+	"maps"
 	"slices"
 	"strconv"
 	"strings"
@@ -146,7 +147,9 @@ func (g *CommonValidator) validateAnnotationProperties(
 	}
 
 	// Check each provided property
-	for propName, propValue := range attr.Properties {
+	// In key order: which of several faulty properties gets reported must not depend on map iteration
+	for _, propName := range slices.Sorted(maps.Keys(attr.Properties)) {
+		propValue := attr.Properties[propName]
 		// Check if the property is allowed
 		propDef, allowed := def.AllowedProperties[propName]
 		if !allowed {
